@@ -90,36 +90,38 @@ def add_grid_to(chk, r, n, **kw):
         chk.corr(GRID_NAME, k, dis, keys, samples)
 
 
-# ----------------------------------------------------------------------------- ParallelTemperingOptimizer, complete model
+# ----------------------------------------------------------------------------- population optimizers, complete models
 
-PT_NAME = ("whole optimizer ParallelTemperingOptimizer (round-robin over complete SimulatedAnnealing systems, swap draws): GFO.Model.Population "
-           "driven through the driver model by the recorded shared tape must emit the same positions, rows, trace, best result, the outer and every "
-           "system's tracker and consume the tape exactly")
+POP_NAME = ("whole optimizer ParallelTempering / ParticleSwarm / SpiralOptimization (round-robin over complete members on ONE shared tape; "
+            "swap draws, linear / spiral move as oracle vector, outer constraint check, member fallback): GFO.Model.Population driven through the "
+            "driver model must emit the same positions, rows, trace, best result, the outer and every member's tracker and consume the tape exactly")
 
 
-def pt_stage(chk, r, n, constraint_p=0.4, nonfinite_p=0.0):
+def pop_stage(chk, r, n, constraint_p=0.4, nonfinite_p=0.0):
     sps = []
-    for _ in range(n):
-        sp = bkgen.scenario(r, "ParallelTemperingOptimizer", constraint_p=constraint_p, nonfinite_p=nonfinite_p)
-        sp["opt_kwargs"]["n_iter_swap"] = r.choice([1, 2, 5, 10])
-        sps.append(sp)
+    for name in loc.POP:
+        for _ in range(n):
+            sp = bkgen.scenario(r, name, constraint_p=constraint_p, nonfinite_p=nonfinite_p)
+            if name == "ParallelTemperingOptimizer":
+                sp["opt_kwargs"]["n_iter_swap"] = r.choice([1, 2, 5, 10])
+            sps.append(sp)
     dis, keys, samples = [], set(), []
     k = 0
     for i in range(0, len(sps), 60):
-        for s, o in loc.run_batch(sps[i:i + 60], loc.run_pt_scenario):
+        for s, o in loc.run_batch(sps[i:i + 60], loc.run_pop_scenario):
             k += 1
             raised = any(rc["exc"] is not None for rc in o["real"]["records"])
-            keys.add((s["opt_kwargs"].get("population"), s["opt_kwargs"]["n_iter_swap"], bool(s.get("constraint")), tuple(sorted(o["tape_kinds"])),
+            keys.add((s["opt"], s["opt_kwargs"].get("population"), bool(s.get("constraint")), tuple(sorted(o["tape_kinds"])),
                       "raised" if raised else "ok"))
             if o["diff"] is not None:
                 dis.append(dict(case=s, diff=o["diff"]))
-            elif len(samples) < 2:
-                samples.append(dict(kwargs=s["opt_kwargs"], tape_entries=o["tape_len"], tape_kinds=o["tape_kinds"]))
+            elif len(samples) < 3:
+                samples.append(dict(opt=s["opt"], kwargs=s["opt_kwargs"], tape_entries=o["tape_len"], tape_kinds=o["tape_kinds"]))
     return k, dis, keys, samples
 
 
 def add_pt_to(chk, r, n, **kw):
-    st = chk.stage("whole-optimizer parallel tempering correspondence", pt_stage, chk, r, n, **kw)
+    st = chk.stage("whole-optimizer population correspondence", pop_stage, chk, r, max(4, n // 2), **kw)
     if st:
         k, dis, keys, samples = st
-        chk.corr(PT_NAME, k, dis, keys, samples)
+        chk.corr(POP_NAME, k, dis, keys, samples)
